@@ -72,15 +72,15 @@ func (Prop) Plan(tier string) []lib.Workload {
 			}
 		}
 		out = append(out, lib.Workload{Name: t.name, Cases: n, Batches: b, MinNontrivial: t.minNT, MemLimitMB: t.memMB,
-			CaseTimeout: 4 * time.Minute, BatchTimeout: 40 * time.Minute})
-		if t.name == "crypto" || t.name == "snappy" || t.name == "acl.addressed" {
+			CaseTimeout: 15 * time.Minute, BatchTimeout: 60 * time.Minute})
+		if t.name == "crypto" || t.name == "acl.addressed" {
 			// a tenth of the inputs of the cheap / most exposed targets also run under -race (checkptr)
 			rn := n / 10
 			if rn < 1 {
 				rn = 1
 			}
 			out = append(out, lib.Workload{Name: t.name + ".race", Cases: rn, Batches: 2, Race: true, MinNontrivial: 1, MemLimitMB: t.memMB,
-				CaseTimeout: 8 * time.Minute, BatchTimeout: 40 * time.Minute})
+				CaseTimeout: 20 * time.Minute, BatchTimeout: 60 * time.Minute})
 		}
 	}
 	return out
